@@ -272,6 +272,7 @@ def main(argv):
     t0 = time.time()
     os.makedirs(OUT, exist_ok=True)
     sys.path.insert(0, REPO)
+    os.environ['VERIF_PROP'] = prop
     mod = importlib.import_module('harness.%s' % prop.lower())
 
     if a.replay:
